@@ -45,7 +45,7 @@ def blob_from_spec(sp):
     if t == 'dss':
         return wire.dss_blob(sp.get('bits', 1024))
     if t == 'cert':
-        return wire.cert_blob(sp['kind'], sp.get('bits', 0), blob_from_spec(sp['ca']), sp.get('cert_type', 2))
+        return wire.cert_blob(sp['kind'], sp.get('bits', 0), blob_from_spec(sp['ca']), sp.get('cert_type', 2), fields=sp.get('fields'))
     if t == 'raw':
         return j2b(sp['data'])
     raise ValueError(sp)
